@@ -257,6 +257,18 @@ func init() {
 	pure("math.NaN", func(a []value) value { return math.NaN() })
 	pure("math.Inf", func(a []value) value { return math.Inf(a[0].(int)) })
 
+	// decimal rendering of a symbolic integer: a placeholder token that the harness can
+	// map back (digit count would otherwise force a fork per decimal length)
+	for _, n := range []string{"strconv.FormatInt", "strconv.Itoa"} {
+		conc := externals[n]
+		externals[n] = func(m *Machine, fr *frame, a []value) value {
+			if t, ok := a[0].(*Term); ok {
+				m.stubsUsed["strconv.FormatInt/Itoa of a symbolic integer → opaque placeholder text"]++
+				return m.placeholderFor(t)
+			}
+			return conc(m, fr, a)
+		}
+	}
 	// symbolic variants where interpretation would hit unsupported leaves
 	symMax := func(isMax bool) externalFn {
 		return func(m *Machine, fr *frame, a []value) value {
